@@ -105,64 +105,64 @@ theorem imc_mc_row3 (a b c d : UInt8) :
   refine e _ ((mul11 (xtime a) ^^^ mul13 a ^^^ mul9 a ^^^ mul14 (mul3 a)) ^^^ (mul11 (mul3 b) ^^^ mul13 (xtime b) ^^^ mul9 b ^^^ mul14 b) ^^^ (mul11 c ^^^ mul13 (mul3 c) ^^^ mul9 (xtime c) ^^^ mul14 c) ^^^ (mul11 d ^^^ mul13 d ^^^ mul9 (mul3 d) ^^^ mul14 (xtime d))) (by ac_rfl) ?_
   rw [imc_mc_s30, imc_mc_s31, imc_mc_s32, imc_mc_s33]; simp
 
-private theorem mc_imc_s00 : ∀ a : UInt8, xtime (mul14 a) ^^^ mul3 (mul9 a) ^^^ mul13 a ^^^ mul11 a = a :=
+private theorem mc_imc_s00 : ∀ a : UInt8, xtime (mul14 a) ^^^ mul3 (mul9 a) ^^^ (mul13 a) ^^^ (mul11 a) = a :=
   forall_uint8 _ (by decide +kernel)
-private theorem mc_imc_s01 : ∀ b : UInt8, xtime (mul11 b) ^^^ mul3 (mul14 b) ^^^ mul9 b ^^^ mul13 b = 0 :=
+private theorem mc_imc_s01 : ∀ b : UInt8, xtime (mul11 b) ^^^ mul3 (mul14 b) ^^^ (mul9 b) ^^^ (mul13 b) = 0 :=
   forall_uint8 _ (by decide +kernel)
-private theorem mc_imc_s02 : ∀ c : UInt8, xtime (mul13 c) ^^^ mul3 (mul11 c) ^^^ mul14 c ^^^ mul9 c = 0 :=
+private theorem mc_imc_s02 : ∀ c : UInt8, xtime (mul13 c) ^^^ mul3 (mul11 c) ^^^ (mul14 c) ^^^ (mul9 c) = 0 :=
   forall_uint8 _ (by decide +kernel)
-private theorem mc_imc_s03 : ∀ d : UInt8, xtime (mul9 d) ^^^ mul3 (mul13 d) ^^^ mul11 d ^^^ mul14 d = 0 :=
+private theorem mc_imc_s03 : ∀ d : UInt8, xtime (mul9 d) ^^^ mul3 (mul13 d) ^^^ (mul11 d) ^^^ (mul14 d) = 0 :=
   forall_uint8 _ (by decide +kernel)
 theorem mc_imc_row0 (a b c d : UInt8) :
-    xtime (mul14 a ^^^ mul11 b ^^^ mul13 c ^^^ mul9 d) ^^^ mul3 (mul9 a ^^^ mul14 b ^^^ mul11 c ^^^ mul13 d) ^^^ mul13 a ^^^ mul9 b ^^^ mul14 c ^^^ mul11 d ^^^ mul11 a ^^^ mul13 b ^^^ mul9 c ^^^ mul14 d = a := by
+    xtime (mul14 a ^^^ mul11 b ^^^ mul13 c ^^^ mul9 d) ^^^ mul3 (mul9 a ^^^ mul14 b ^^^ mul11 c ^^^ mul13 d) ^^^ (mul13 a ^^^ mul9 b ^^^ mul14 c ^^^ mul11 d) ^^^ (mul11 a ^^^ mul13 b ^^^ mul9 c ^^^ mul14 d) = a := by
   simp only [mul3_xor, mul9_xor, mul11_xor, mul13_xor, mul14_xor, xtime_xor]
   have e : ∀ x y : UInt8, x = y → y = a → x = a := fun _ _ h1 h2 => h1.trans h2
-  refine e _ ((xtime (mul14 a) ^^^ mul3 (mul9 a) ^^^ mul13 a ^^^ mul11 a) ^^^ (xtime (mul11 b) ^^^ mul3 (mul14 b) ^^^ mul9 b ^^^ mul13 b) ^^^ (xtime (mul13 c) ^^^ mul3 (mul11 c) ^^^ mul14 c ^^^ mul9 c) ^^^ (xtime (mul9 d) ^^^ mul3 (mul13 d) ^^^ mul11 d ^^^ mul14 d)) (by ac_rfl) ?_
+  refine e _ ((xtime (mul14 a) ^^^ mul3 (mul9 a) ^^^ (mul13 a) ^^^ (mul11 a)) ^^^ (xtime (mul11 b) ^^^ mul3 (mul14 b) ^^^ (mul9 b) ^^^ (mul13 b)) ^^^ (xtime (mul13 c) ^^^ mul3 (mul11 c) ^^^ (mul14 c) ^^^ (mul9 c)) ^^^ (xtime (mul9 d) ^^^ mul3 (mul13 d) ^^^ (mul11 d) ^^^ (mul14 d))) (by ac_rfl) ?_
   rw [mc_imc_s00, mc_imc_s01, mc_imc_s02, mc_imc_s03]; simp
 
-private theorem mc_imc_s10 : ∀ a : UInt8, mul14 a ^^^ xtime (mul9 a) ^^^ mul3 (mul13 a) ^^^ mul11 a = 0 :=
+private theorem mc_imc_s10 : ∀ a : UInt8, (mul14 a) ^^^ xtime (mul9 a) ^^^ mul3 (mul13 a) ^^^ (mul11 a) = 0 :=
   forall_uint8 _ (by decide +kernel)
-private theorem mc_imc_s11 : ∀ b : UInt8, mul11 b ^^^ xtime (mul14 b) ^^^ mul3 (mul9 b) ^^^ mul13 b = b :=
+private theorem mc_imc_s11 : ∀ b : UInt8, (mul11 b) ^^^ xtime (mul14 b) ^^^ mul3 (mul9 b) ^^^ (mul13 b) = b :=
   forall_uint8 _ (by decide +kernel)
-private theorem mc_imc_s12 : ∀ c : UInt8, mul13 c ^^^ xtime (mul11 c) ^^^ mul3 (mul14 c) ^^^ mul9 c = 0 :=
+private theorem mc_imc_s12 : ∀ c : UInt8, (mul13 c) ^^^ xtime (mul11 c) ^^^ mul3 (mul14 c) ^^^ (mul9 c) = 0 :=
   forall_uint8 _ (by decide +kernel)
-private theorem mc_imc_s13 : ∀ d : UInt8, mul9 d ^^^ xtime (mul13 d) ^^^ mul3 (mul11 d) ^^^ mul14 d = 0 :=
+private theorem mc_imc_s13 : ∀ d : UInt8, (mul9 d) ^^^ xtime (mul13 d) ^^^ mul3 (mul11 d) ^^^ (mul14 d) = 0 :=
   forall_uint8 _ (by decide +kernel)
 theorem mc_imc_row1 (a b c d : UInt8) :
-    mul14 a ^^^ mul11 b ^^^ mul13 c ^^^ mul9 d ^^^ xtime (mul9 a ^^^ mul14 b ^^^ mul11 c ^^^ mul13 d) ^^^ mul3 (mul13 a ^^^ mul9 b ^^^ mul14 c ^^^ mul11 d) ^^^ mul11 a ^^^ mul13 b ^^^ mul9 c ^^^ mul14 d = b := by
+    (mul14 a ^^^ mul11 b ^^^ mul13 c ^^^ mul9 d) ^^^ xtime (mul9 a ^^^ mul14 b ^^^ mul11 c ^^^ mul13 d) ^^^ mul3 (mul13 a ^^^ mul9 b ^^^ mul14 c ^^^ mul11 d) ^^^ (mul11 a ^^^ mul13 b ^^^ mul9 c ^^^ mul14 d) = b := by
   simp only [mul3_xor, mul9_xor, mul11_xor, mul13_xor, mul14_xor, xtime_xor]
   have e : ∀ x y : UInt8, x = y → y = b → x = b := fun _ _ h1 h2 => h1.trans h2
-  refine e _ ((mul14 a ^^^ xtime (mul9 a) ^^^ mul3 (mul13 a) ^^^ mul11 a) ^^^ (mul11 b ^^^ xtime (mul14 b) ^^^ mul3 (mul9 b) ^^^ mul13 b) ^^^ (mul13 c ^^^ xtime (mul11 c) ^^^ mul3 (mul14 c) ^^^ mul9 c) ^^^ (mul9 d ^^^ xtime (mul13 d) ^^^ mul3 (mul11 d) ^^^ mul14 d)) (by ac_rfl) ?_
+  refine e _ (((mul14 a) ^^^ xtime (mul9 a) ^^^ mul3 (mul13 a) ^^^ (mul11 a)) ^^^ ((mul11 b) ^^^ xtime (mul14 b) ^^^ mul3 (mul9 b) ^^^ (mul13 b)) ^^^ ((mul13 c) ^^^ xtime (mul11 c) ^^^ mul3 (mul14 c) ^^^ (mul9 c)) ^^^ ((mul9 d) ^^^ xtime (mul13 d) ^^^ mul3 (mul11 d) ^^^ (mul14 d))) (by ac_rfl) ?_
   rw [mc_imc_s10, mc_imc_s11, mc_imc_s12, mc_imc_s13]; simp
 
-private theorem mc_imc_s20 : ∀ a : UInt8, mul14 a ^^^ mul9 a ^^^ xtime (mul13 a) ^^^ mul3 (mul11 a) = 0 :=
+private theorem mc_imc_s20 : ∀ a : UInt8, (mul14 a) ^^^ (mul9 a) ^^^ xtime (mul13 a) ^^^ mul3 (mul11 a) = 0 :=
   forall_uint8 _ (by decide +kernel)
-private theorem mc_imc_s21 : ∀ b : UInt8, mul11 b ^^^ mul14 b ^^^ xtime (mul9 b) ^^^ mul3 (mul13 b) = 0 :=
+private theorem mc_imc_s21 : ∀ b : UInt8, (mul11 b) ^^^ (mul14 b) ^^^ xtime (mul9 b) ^^^ mul3 (mul13 b) = 0 :=
   forall_uint8 _ (by decide +kernel)
-private theorem mc_imc_s22 : ∀ c : UInt8, mul13 c ^^^ mul11 c ^^^ xtime (mul14 c) ^^^ mul3 (mul9 c) = c :=
+private theorem mc_imc_s22 : ∀ c : UInt8, (mul13 c) ^^^ (mul11 c) ^^^ xtime (mul14 c) ^^^ mul3 (mul9 c) = c :=
   forall_uint8 _ (by decide +kernel)
-private theorem mc_imc_s23 : ∀ d : UInt8, mul9 d ^^^ mul13 d ^^^ xtime (mul11 d) ^^^ mul3 (mul14 d) = 0 :=
+private theorem mc_imc_s23 : ∀ d : UInt8, (mul9 d) ^^^ (mul13 d) ^^^ xtime (mul11 d) ^^^ mul3 (mul14 d) = 0 :=
   forall_uint8 _ (by decide +kernel)
 theorem mc_imc_row2 (a b c d : UInt8) :
-    mul14 a ^^^ mul11 b ^^^ mul13 c ^^^ mul9 d ^^^ mul9 a ^^^ mul14 b ^^^ mul11 c ^^^ mul13 d ^^^ xtime (mul13 a ^^^ mul9 b ^^^ mul14 c ^^^ mul11 d) ^^^ mul3 (mul11 a ^^^ mul13 b ^^^ mul9 c ^^^ mul14 d) = c := by
+    (mul14 a ^^^ mul11 b ^^^ mul13 c ^^^ mul9 d) ^^^ (mul9 a ^^^ mul14 b ^^^ mul11 c ^^^ mul13 d) ^^^ xtime (mul13 a ^^^ mul9 b ^^^ mul14 c ^^^ mul11 d) ^^^ mul3 (mul11 a ^^^ mul13 b ^^^ mul9 c ^^^ mul14 d) = c := by
   simp only [mul3_xor, mul9_xor, mul11_xor, mul13_xor, mul14_xor, xtime_xor]
   have e : ∀ x y : UInt8, x = y → y = c → x = c := fun _ _ h1 h2 => h1.trans h2
-  refine e _ ((mul14 a ^^^ mul9 a ^^^ xtime (mul13 a) ^^^ mul3 (mul11 a)) ^^^ (mul11 b ^^^ mul14 b ^^^ xtime (mul9 b) ^^^ mul3 (mul13 b)) ^^^ (mul13 c ^^^ mul11 c ^^^ xtime (mul14 c) ^^^ mul3 (mul9 c)) ^^^ (mul9 d ^^^ mul13 d ^^^ xtime (mul11 d) ^^^ mul3 (mul14 d))) (by ac_rfl) ?_
+  refine e _ (((mul14 a) ^^^ (mul9 a) ^^^ xtime (mul13 a) ^^^ mul3 (mul11 a)) ^^^ ((mul11 b) ^^^ (mul14 b) ^^^ xtime (mul9 b) ^^^ mul3 (mul13 b)) ^^^ ((mul13 c) ^^^ (mul11 c) ^^^ xtime (mul14 c) ^^^ mul3 (mul9 c)) ^^^ ((mul9 d) ^^^ (mul13 d) ^^^ xtime (mul11 d) ^^^ mul3 (mul14 d))) (by ac_rfl) ?_
   rw [mc_imc_s20, mc_imc_s21, mc_imc_s22, mc_imc_s23]; simp
 
-private theorem mc_imc_s30 : ∀ a : UInt8, mul3 (mul14 a) ^^^ mul9 a ^^^ mul13 a ^^^ xtime (mul11 a) = 0 :=
+private theorem mc_imc_s30 : ∀ a : UInt8, mul3 (mul14 a) ^^^ (mul9 a) ^^^ (mul13 a) ^^^ xtime (mul11 a) = 0 :=
   forall_uint8 _ (by decide +kernel)
-private theorem mc_imc_s31 : ∀ b : UInt8, mul3 (mul11 b) ^^^ mul14 b ^^^ mul9 b ^^^ xtime (mul13 b) = 0 :=
+private theorem mc_imc_s31 : ∀ b : UInt8, mul3 (mul11 b) ^^^ (mul14 b) ^^^ (mul9 b) ^^^ xtime (mul13 b) = 0 :=
   forall_uint8 _ (by decide +kernel)
-private theorem mc_imc_s32 : ∀ c : UInt8, mul3 (mul13 c) ^^^ mul11 c ^^^ mul14 c ^^^ xtime (mul9 c) = 0 :=
+private theorem mc_imc_s32 : ∀ c : UInt8, mul3 (mul13 c) ^^^ (mul11 c) ^^^ (mul14 c) ^^^ xtime (mul9 c) = 0 :=
   forall_uint8 _ (by decide +kernel)
-private theorem mc_imc_s33 : ∀ d : UInt8, mul3 (mul9 d) ^^^ mul13 d ^^^ mul11 d ^^^ xtime (mul14 d) = d :=
+private theorem mc_imc_s33 : ∀ d : UInt8, mul3 (mul9 d) ^^^ (mul13 d) ^^^ (mul11 d) ^^^ xtime (mul14 d) = d :=
   forall_uint8 _ (by decide +kernel)
 theorem mc_imc_row3 (a b c d : UInt8) :
-    mul3 (mul14 a ^^^ mul11 b ^^^ mul13 c ^^^ mul9 d) ^^^ mul9 a ^^^ mul14 b ^^^ mul11 c ^^^ mul13 d ^^^ mul13 a ^^^ mul9 b ^^^ mul14 c ^^^ mul11 d ^^^ xtime (mul11 a ^^^ mul13 b ^^^ mul9 c ^^^ mul14 d) = d := by
+    mul3 (mul14 a ^^^ mul11 b ^^^ mul13 c ^^^ mul9 d) ^^^ (mul9 a ^^^ mul14 b ^^^ mul11 c ^^^ mul13 d) ^^^ (mul13 a ^^^ mul9 b ^^^ mul14 c ^^^ mul11 d) ^^^ xtime (mul11 a ^^^ mul13 b ^^^ mul9 c ^^^ mul14 d) = d := by
   simp only [mul3_xor, mul9_xor, mul11_xor, mul13_xor, mul14_xor, xtime_xor]
   have e : ∀ x y : UInt8, x = y → y = d → x = d := fun _ _ h1 h2 => h1.trans h2
-  refine e _ ((mul3 (mul14 a) ^^^ mul9 a ^^^ mul13 a ^^^ xtime (mul11 a)) ^^^ (mul3 (mul11 b) ^^^ mul14 b ^^^ mul9 b ^^^ xtime (mul13 b)) ^^^ (mul3 (mul13 c) ^^^ mul11 c ^^^ mul14 c ^^^ xtime (mul9 c)) ^^^ (mul3 (mul9 d) ^^^ mul13 d ^^^ mul11 d ^^^ xtime (mul14 d))) (by ac_rfl) ?_
+  refine e _ ((mul3 (mul14 a) ^^^ (mul9 a) ^^^ (mul13 a) ^^^ xtime (mul11 a)) ^^^ (mul3 (mul11 b) ^^^ (mul14 b) ^^^ (mul9 b) ^^^ xtime (mul13 b)) ^^^ (mul3 (mul13 c) ^^^ (mul11 c) ^^^ (mul14 c) ^^^ xtime (mul9 c)) ^^^ (mul3 (mul9 d) ^^^ (mul13 d) ^^^ (mul11 d) ^^^ xtime (mul14 d))) (by ac_rfl) ?_
   rw [mc_imc_s30, mc_imc_s31, mc_imc_s32, mc_imc_s33]; simp
 /-! ### the four steps and their inverses on the state -/
 
@@ -233,7 +233,7 @@ theorem addRoundKey_cancel (s rk : Bytes) (h : s.length ≤ rk.length) : addRoun
 theorem addRoundKey_length (s rk : Bytes) (h : rk.length = 16) (hs : s.length = 16) : (addRoundKey s rk).length = 16 := by
   simp [addRoundKey, h, hs]
 @[simp] theorem roundKey_length (w : Array UInt8) (i : Nat) : (roundKey w i).length = 16 := by simp [roundKey]
-@[simp] theorem normBlock_length (b : Bytes) : (normBlock b).length = 16 := by simp [normBlock]; omega
+@[simp] theorem normBlock_length (b : Bytes) : (normBlock b).length = 16 := by simp [normBlock]
 theorem normBlock_of_len (b : Bytes) (h : b.length = 16) : normBlock b = b := by
   simp [normBlock, List.take_append, h]
 
@@ -292,14 +292,16 @@ theorem encCore_length (k0 : Bytes) (mids : List Bytes) (kL b : Bytes) (h0 : k0.
     (hm : ∀ k ∈ mids, k.length = 16) (hL : kL.length = 16) (hb : b.length = 16) :
     (encCore k0 mids kL b).length = 16 := by
   have := foldl_encRound_length mids (addRoundKey b k0) (addRoundKey_length b k0 h0 hb) hm
-  simp [encCore, addRoundKey, this, hL]
+  unfold encCore
+  rw [addRoundKey_eq, xorBytes_length, shiftRows_length, subBytes_length, this, hL]; rfl
 
 theorem decCore_length (k0 : Bytes) (mids : List Bytes) (kL b : Bytes) (h0 : k0.length = 16)
     (hm : ∀ k ∈ mids, k.length = 16) (hL : kL.length = 16) (hb : b.length = 16) :
     (decCore k0 mids kL b).length = 16 := by
   have h1 : (invSubBytes (invShiftRows (addRoundKey b kL))).length = 16 := by simp [addRoundKey, hb, hL]
   have := foldr_decRound_length mids _ h1 hm
-  simp [decCore, addRoundKey, this, h0]
+  unfold decCore
+  rw [addRoundKey_eq, xorBytes_length, this, h0]; rfl
 
 theorem decCore_encCore (k0 : Bytes) (mids : List Bytes) (kL b : Bytes) (h0 : k0.length = 16)
     (hm : ∀ k ∈ mids, k.length = 16) (hL : kL.length = 16) (hb : b.length = 16) :
